@@ -740,6 +740,21 @@ class Interp:
         """`x = {k: await f(k) for k in it}` / `return {d for d in it if p(d)}` (or list/dict) -> explicit loop,
         so that awaited calls and element filters fork properly (statement-level forking)."""
         v = node.value
+        cur0 = getattr(self, "_cur", None)
+        if (isinstance(v, ast.Call) and isinstance(v.func, ast.Name) and v.func.id in ("set", "list") and len(v.args) == 1 and not v.keywords
+                and cur0 is not None and v.func.id not in cur0[0].env and self.prog.resolve_name(cur0[1].module, v.func.id) is None):
+            # set(<generator expression>) / list(map(f, xs)): the comprehension of the same kind
+            a0 = v.args[0]
+            kind = ast.SetComp if v.func.id == "set" else ast.ListComp
+            if isinstance(a0, ast.GeneratorExp):
+                v = ast.copy_location(kind(elt=a0.elt, generators=a0.generators), v)
+            elif (isinstance(a0, ast.Call) and isinstance(a0.func, ast.Name) and a0.func.id == "map" and len(a0.args) == 2 and not a0.keywords and not isinstance(a0.args[1], ast.Starred)
+                  and "map" not in cur0[0].env and self.prog.resolve_name(cur0[1].module, "map") is None and isinstance(a0.args[0], (ast.Name, ast.Attribute))):
+                self._comp_n = getattr(self, "_comp_n", 0) + 1
+                tv = f"$m{self._comp_n}"
+                elt = ast.Call(func=a0.args[0], args=[ast.Name(id=tv, ctx=ast.Load())], keywords=[])
+                v = ast.copy_location(kind(elt=elt, generators=[ast.comprehension(target=ast.Name(id=tv, ctx=ast.Store()), iter=a0.args[1], ifs=[], is_async=0)]), v)
+                ast.fix_missing_locations(v)
         if not isinstance(v, (ast.DictComp, ast.ListComp, ast.SetComp)) or len(v.generators) != 1:
             return None
         g = v.generators[0]
